@@ -25,9 +25,10 @@ MANIFEST = {
                   "announce the input length; counterexamples are replayed natively",
     "level_note": "trusted: Kani's MIR->goto translation, CBMC, CaDiCaL. Bounds: N <= 3 quick / <= 4 thorough; vpartition / "
                   "varg_partition with literal (kth, sort, rev, null pattern) grids (symbolic kth: no solver answer in 900 s), "
-                  "vcut with literal flags at 1-2 values; winsorize only in the thorough tier (its returned iterator is "
-                  "iter_cast().vclip(), which is covered with arbitrary bounds in the quick tier). Pipelines of depth >= 2 are "
-                  "covered by induction over the abstract inner iterator, two concrete pipelines in the thorough tier. Outside: "
+                  "vcut with literal flags at 1-2 values; winsorize itself is not run (median/sigma at N = 2 exhaust 12 GB; its returned "
+                  "iterator is iter_cast().vclip(), which is covered with arbitrary bounds: c09_winsor_tail_n2). Pipelines of depth >= 2 are "
+                  "covered by induction over the abstract inner iterator; concrete fill.vclip and ffill.vclip.vshift pipelines in the thorough "
+                  "tier (vshift over vshift exhausts memory even with literal lags). Outside: "
                   "Polars backend; Scan / Repeat (unbounded) TrustedLen impls not reachable from the public adaptors; "
                   "Linspace::next_back (private type, only forward-collected); detection of uninitialised reads after an "
                   "under-yield is by the TOTAL observation, not by memory instrumentation",
@@ -43,7 +44,7 @@ def check(v, tier, opts):
         "MapValidVec::{vdiff, vpct_change, vpartition, varg_partition}", "Vec1View::rolling_custom_iter",
         "Vec1Create::{range, linspace} / tea_core::linspace::Linspace", "CollectTrusted::collect_from_trusted for Vec, "
         "CollectTrustedToVec::collect_trusted_to_vec, Vec1Collect::collect_trusted_vec1",
-        "MapValidFinal::winsorize (thorough tier)",
+        "tail of MapValidFinal::winsorize (iter_cast::<f64>().vclip(min, max))",
     ])
     v.bounds.append("input length N in 0..=3 quick (0..=4 thorough), abstract inner iterator with symbolic remaining length <= 3; "
                     "lag: full i32 range (vshift, vdiff, vpct_change), -N-3..=N+3 (shift); window 1..=N+2; kth in 0..=N+2 as literal "
@@ -53,6 +54,6 @@ def check(v, tier, opts):
                          "vdiff/vpct_change: i32 elements in -100..=100 (no overflow of the difference); integer range: the sign "
                          "of the step agrees with the direction of the span (the opposite is a C19 question)")
     v.outside.append("Polars backend; lengths above the bound; Scan/Repeat TrustedLen impls (unreachable from the public adaptors); "
-                     "Linspace::next_back; symbolic kth for the partitions; winsorize in the quick tier")
+                     "Linspace::next_back; symbolic kth for the partitions; the aggregate part of winsorize (quantile / median / sigma bounds)")
     kani_engine.decide(v, "C09", tier, opts)
     return v.finish(RULE)
